@@ -642,10 +642,15 @@ theorem point_dispatch (s : Sys K) (pos : Option (V3 K)) (ptd : Option Int) (p d
 
 /-! ### the tolerance argument, symbols and masses -/
 
+/-- `guardAtype` lets every result through when the requested type is a valid one (or none is requested). -/
+theorem guardAtype_ok (kw : Kw K) (r : Except Err (Sys K)) (h : kw.atypeOk = true) : guardAtype kw r = r := by
+  cases r <;> simp [guardAtype, h]
+
 /-- **`atol=None` and only `None` means the default.**  An explicit tolerance — `0`, negative, tiny —
-    is used as given by every generator. -/
+    is used as given by every generator (for every request whose defect-atom type is a valid one;
+    `refuse_bad_atype` covers the others). -/
 theorem atol_resolution (d a : K) (s : Sys K) (pos : Option (V3 K)) (ptd : Option Int) (p db : V3 K) (scale : Bool)
-    (kw : Kw K) :
+    (kw : Kw K) (hk : kw.atypeOk = true) :
     vacancyC d s pos ptd scale none = vacancy s pos ptd scale d ∧
     vacancyC d s pos ptd scale (some a) = vacancy s pos ptd scale a ∧
     interstitialC d s p scale none kw = interstitial s p scale d kw ∧
@@ -653,16 +658,47 @@ theorem atol_resolution (d a : K) (s : Sys K) (pos : Option (V3 K)) (ptd : Optio
     substitutionalC d s pos ptd scale none kw = substitutional s pos ptd scale d kw ∧
     substitutionalC d s pos ptd scale (some a) kw = substitutional s pos ptd scale a kw ∧
     dumbbellC d s pos ptd db scale none kw = dumbbell s pos ptd db scale d kw ∧
-    dumbbellC d s pos ptd db scale (some a) kw = dumbbell s pos ptd db scale a kw :=
-  ⟨rfl, rfl, rfl, rfl, rfl, rfl, rfl, rfl⟩
+    dumbbellC d s pos ptd db scale (some a) kw = dumbbell s pos ptd db scale a kw := by
+  refine ⟨rfl, rfl, ?_, ?_, ?_, ?_, ?_, ?_⟩ <;>
+    simp only [interstitialC, substitutionalC, dumbbellC, effAtol, guardAtype_ok _ _ hk]
+
+/-- the default is resolved in ONE place: a call with `atol=None` is the call with the default given
+    explicitly — for every generator and through the dispatcher, whatever the keywords. -/
+theorem atol_none_is_default (d : K) (s : Sys K) (t : String) (pos : Option (V3 K)) (ptd : Option Int)
+    (p dbv : V3 K) (db : Option (V3 K)) (scale : Bool) (kw : Kw K) :
+    vacancyC d s pos ptd scale none = vacancyC d s pos ptd scale (some d) ∧
+    interstitialC d s p scale none kw = interstitialC d s p scale (some d) kw ∧
+    substitutionalC d s pos ptd scale none kw = substitutionalC d s pos ptd scale (some d) kw ∧
+    dumbbellC d s pos ptd dbv scale none kw = dumbbellC d s pos ptd dbv scale (some d) kw ∧
+    pointC d s t pos ptd db scale none kw = pointC d s t pos ptd db scale (some d) kw :=
+  ⟨rfl, rfl, rfl, rfl, rfl⟩
 
 /-- the dispatcher hands the tolerance on unchanged: through `point` the same default rule holds for
     every defect type. -/
 theorem point_atol_passthrough (d : K) (s : Sys K) (t : String) (pos : Option (V3 K)) (ptd : Option Int)
-    (db : Option (V3 K)) (scale : Bool) (atol : Option K) (kw : Kw K) :
+    (db : Option (V3 K)) (scale : Bool) (atol : Option K) (kw : Kw K) (hk : kw.atypeOk = true) :
     pointC d s t pos ptd db scale atol kw = point s t pos ptd db scale (effAtol d atol) kw := by
   unfold pointC point vacancyC interstitialC substitutionalC dumbbellC
-  rfl
+  simp only [guardAtype_ok _ _ hk]
+
+/-- **a defect-atom type below 1 is refused** (`atype=0`, negative): by the three generators that take
+    one and through the dispatcher — never a system that carries the invalid type, never a silent
+    replacement by the default. -/
+theorem refuse_bad_atype (d : K) (s : Sys K) (pos : Option (V3 K)) (ptd : Option Int) (p dbv : V3 K)
+    (scale : Bool) (atol : Option K) (kw : Kw K) (t : Int) (ht : kw.atype = some t) (hlt : t < 1) :
+    (interstitialC d s p scale atol kw).isOk = false ∧
+    (substitutionalC d s pos ptd scale atol kw).isOk = false ∧
+    (dumbbellC d s pos ptd dbv scale atol kw).isOk = false ∧
+    (pointC d s "i" (some p) none none scale atol kw).isOk = false ∧
+    (pointC d s "s" pos ptd none scale atol kw).isOk = false ∧
+    (pointC d s "db" pos ptd (some dbv) scale atol kw).isOk = false := by
+  have hk : kw.atypeOk = false := by simp [Kw.atypeOk, ht]; omega
+  have hg : ∀ r : Except Err (Sys K), (guardAtype kw r).isOk = false := by
+    intro r; cases r <;> simp [guardAtype, hk, Except.isOk, Except.toBool]
+  refine ⟨hg _, hg _, hg _, ?_, ?_, ?_⟩
+  · simp only [pointC, interstitialC]; simpa using hg _
+  · simp only [pointC, substitutionalC]; simpa using hg _
+  · simp only [pointC, dumbbellC]; simpa using hg _
 
 /-- every accepted insertion builds its result as `System(box, pbc, atoms, symbols, masses)` of the
     input's symbols and masses. -/
@@ -839,7 +875,7 @@ theorem zero_tol_offsite (d : K) (s : Sys K) (p : V3 K) (scale : Bool) (kw : Kw 
     substitutionalC d s (some p) none scale (some 0) kw = .error .value ∧
     dumbbellC d s (some p) none db scale (some 0) kw = .error .value ∧
     pointC d s "v" (some p) none none scale (some 0) {} = .error .value ∧
-    interstitialC d s p scale (some 0) kw = interstitialAt s (toCart s scale p) kw := by
+    interstitialC d s p scale (some 0) kw = guardAtype kw (interstitialAt s (toCart s scale p) kw) := by
   have hw : ∀ (j : Nat) b, s.atoms[j]? = some b → within s (toCart s scale p) 0 b = false := by
     intro j b hb
     cases hc : within s (toCart s scale p) 0 b with
@@ -852,8 +888,10 @@ theorem zero_tol_offsite (d : K) (s : Sys K) (p : V3 K) (scale : Bool) (kw : Kw 
     have hb : s.atoms[j]? = some s.atoms[j] := List.getElem?_eq_getElem hj
     simp [hb, hw j _ hb]
   obtain ⟨h1, h2, h3⟩ := refusals_propagate s (some p) none scale 0 .value hr kw db
-  refine ⟨h1, h2, h3, ?_, ?_⟩
-  · rw [point_atol_passthrough]; simp [point, Kw.isEmpty, effAtol, h1]
+  refine ⟨h1, ?_, ?_, ?_, ?_⟩
+  · simp [substitutionalC, effAtol, h2, guardAtype]
+  · simp [dumbbellC, effAtol, h3, guardAtype]
+  · rw [point_atol_passthrough _ _ _ _ _ _ _ _ _ (by rfl)]; simp [point, Kw.isEmpty, effAtol, h1]
   · simp [interstitialC, effAtol, interstitial, hm]
 
 end field
@@ -909,6 +947,12 @@ example : pointC (1/100) exSys "v" (some ⟨-3 + 1/128, 0, 0⟩) none none false
 example : pointC (1/100) exSys "v" (some ⟨-3, 0, 0⟩) none none false (some 0) {} = vacancy exSys none (some 0) false 0 := by decide +kernel
 example : interstitialC (1/100) exSys ⟨1 + 1/128, 0, 0⟩ false none {} = .error .value := by decide +kernel
 example : (interstitialC (1/100) exSys ⟨1 + 1/128, 0, 0⟩ false (some 0) {}).isOk = true := by decide +kernel
+-- a requested type below 1 is refused, whatever else is asked; a valid one goes through
+example : interstitialC (1/100) exSys ⟨1/4, 1/2, 1/2⟩ true none { atype := some 0 } = .error .value := by decide +kernel
+example : substitutionalC (1/100) exSys none (some 0) false none { atype := some (-1) } = .error .value := by decide +kernel
+example : pointC (1/100) exSys "db" none (some 0) (some ⟨1/8, 0, 0⟩) true none { atype := some 0 } = .error .value := by decide +kernel
+example : (interstitialC (1/100) exSys ⟨1/4, 1/2, 1/2⟩ true none { atype := some 3 }).isOk = true := by decide +kernel
+example : ({ atype := some 3 } : Kw Rat).atypeOk = true ∧ ({} : Kw Rat).atypeOk = true := by decide
 -- masses are handed on
 example : (vacancy exSys none (some 0) false (1/100)).toOption.map (·.masses) = some [some 27, none] := by decide +kernel
 
